@@ -73,7 +73,14 @@ class SizesMonitor(Monitor):
                         self.res.probes["c04.partial_cancel_then_removal"] += 1
                 self.last[vid] = b
             if strategy_call:
-                tol = 0.011 if sp_lay else EPS
+                # the re-sizing of a LAY carried to the starting price may leave a penny of residue; the wider tolerance is for
+                # orders that HAVE been carried (reconciled), not for every lay order that merely has that persistence
+                carried = False
+                if sp_lay and o.simulated._bsp_reconciled:
+                    st_ = self.run.held_state(market.market_id)
+                    bsp = ((st_ or {}).get("r", {}).get(str(o.selection_id)) or {}).get("bsp")
+                    carried = bsp is not None and any(abs(f[1] - bsp) < 1e-9 for f in o.simulated.matched)
+                tol = 0.011 if carried else EPS
                 if o.complete != (abs(r) <= tol):
                     self.violate(
                         self.P,
